@@ -88,7 +88,7 @@ CHECKS = {
               "specObs (t ++ c)) and parseReply_stable (a complete reply is not re-read by later bytes); C05_segmentation as corollary. The correspondence run "
               "checks the same law on whole, byte-wise, two-cut and random segmentations of every generated stream, with disconnects injected."),
         note=NOTE_COMMON + "The stream law is proved for connections that stay up and for CONNECTs not answered with a domain-type address "
-             "(that case is the known finding; its kernel-checked witness is in Props/C05b); streams ending in a disconnect are compared differentially.",
+             "(that case is the known finding; its kernel-checked witness is in Props/C05b). Streams ending in a disconnect: C05_stream_law_lost (Props/C05c) — any segmentation, then connectionLost: an undecided attempt fails once with the connection error, a connected application is told, a decided attempt keeps its outcome.",
         technique="Lean 4: closed-form state + run-level refinement to a stream-level spec for every segmentation, over a model interpreting the generated automat table; differential correspondence",
         ref='§4 C05'),
     'C06': dict(
